@@ -430,6 +430,9 @@ func (ft *funcTr) simple(s ast.Stmt, ind string) string {
 		if out, ok := ft.callStmt(s, ind); ok {
 			return out // methods.go
 		}
+		if ft.discardStmt(s) {
+			return "" // segstate.go
+		}
 		if c, ok := s.X.(*ast.CallExpr); ok && ft.builtin(c) == "copy" && len(c.Args) == 2 {
 			dst := ft.rootVar(c.Args[0])
 			pres, src := ft.expr(c.Args[1], nil)
@@ -453,6 +456,9 @@ func (ft *funcTr) simple(s ast.Stmt, ind string) string {
 		gd, ok := s.Decl.(*ast.GenDecl)
 		if ok && gd.Tok == token.CONST {
 			return "" // a local constant: its uses are constants (data.go)
+		}
+		if ok && gd.Tok == token.TYPE {
+			return "" // a local type declaration has no run-time effect (segstate.go)
 		}
 		if !ok || gd.Tok != token.VAR {
 			t.fail(s, "local declaration other than var")
